@@ -271,3 +271,43 @@ func VC_C04_variadic_string_prefix() {
 	verifAssert(f("k") == -1, "C04.variadic-sprefix.length-must-match")
 	verifReached("C04.variadic-sprefix")
 }
+
+func (r *vRecv) MV(p int, rest ...int) int { return 0 }
+
+// VC_C04_method_variadic: a variadic method: the receiver is skipped, then prefix and
+// variadic tail are matched element by element for every combination of lengths.
+func VC_C04_method_variadic() {
+	vEnv()
+	defer func() {
+		if e := recover(); e != nil {
+			verifAssert(false, "C04.method-variadic.no-panic")
+		}
+	}()
+	w, err := CreateWhen(nil, (*vRecv).MV, nil, []interface{}{-1}, true)
+	verifAssert(err == nil, "C04.method-variadic.create-ok")
+	nc := verifChoice("ncond", 4)
+	na := verifChoice("nargs", 4)
+	cp, ap := verifInt("cp"), verifInt("ap")
+	cond := []interface{}{cp}
+	cv := make([]int, nc)
+	for i := 0; i < nc; i++ {
+		cv[i] = verifInt(vCondN[i])
+		cond = append(cond, cv[i])
+	}
+	args := make([]int, na)
+	for i := 0; i < na; i++ {
+		args[i] = verifInt(vTailN[i])
+	}
+	w.When(cond...).Return(7)
+	f := vStubFunc(w).(func(*vRecv, int, ...int) int)
+	got := f(&vRecv{n: verifInt("n1")}, ap, args...)
+	m := verifAnd(nc == na, cp == ap)
+	if nc == na {
+		for i := 0; i < nc; i++ {
+			m = verifAnd(m, cv[i] == args[i])
+		}
+	}
+	verifAssert((got == 7) == m, "C04.method-variadic.elementwise")
+	verifAssert(got == 7 || got == -1, "C04.method-variadic.result-is-configured")
+	verifReached("C04.method-variadic")
+}
